@@ -20,6 +20,10 @@ pub struct RRule {
     host_re: Option<Regex>,
     path_re: Option<Regex>,
     header_res: Vec<Option<Regex>>,
+    // the case flags of the configuration: a literal host / path is compared case-insensitively when they are set,
+    // whatever case the conversion left it in (the statement quantifies over the flags)
+    ic_host: bool,
+    ic_path: bool,
 }
 
 fn anchored(p: &str, ic: bool) -> Option<Regex> {
@@ -52,6 +56,8 @@ impl RRule {
             host_re,
             path_re,
             header_res,
+            ic_host: config.ignore_host_case,
+            ic_path: config.ignore_path_and_query_case,
         }
     }
 
@@ -81,7 +87,7 @@ impl RRule {
     fn host_ok(&self, q: &Request) -> bool {
         let Some(h) = q.host.as_deref() else { return false };
         match self.route.host() {
-            Some(StaticOrDynamic::Static(x)) => x == h,
+            Some(StaticOrDynamic::Static(x)) => x == h || (self.ic_host && x.to_lowercase() == h.to_lowercase()),
             Some(StaticOrDynamic::Dynamic(_)) => self.host_re.as_ref().map(|r| r.is_match(h)).unwrap_or(false),
             None => false,
         }
@@ -164,7 +170,7 @@ impl RRule {
     fn path_ok(&self, q: &Request) -> bool {
         let p = q.path_and_query();
         match self.route.path_and_query() {
-            StaticOrDynamic::Static(s) => *s == p,
+            StaticOrDynamic::Static(s) => *s == p || (self.ic_path && s.to_lowercase() == p.to_lowercase()),
             StaticOrDynamic::Dynamic(_) => self.path_re.as_ref().map(|r| r.is_match(&p)).unwrap_or(false),
         }
     }
